@@ -190,6 +190,13 @@ def rule_cells(ck):
     from . import c11
     ck.clause('D3 (shared C11-D2)')
     c11.rule_schema(ck)
+    # quadtree layouts: the file loader keeps cell k <-> rate row k, and the point lookup has a unique owner per point -
+    # with overlapping (closed) bounds the "first matching cell" would depend on the order the cells are stored in
+    c11.rule_quadtree_schema(ck)
+    from . import c17
+    ck.clause('D3 (shared C17-D1)')
+    c17.rule_ownership(ck)
+    ck.clause('D3')
     w = P.func('csep.core.regions.CartesianGrid2D._build_bitmask_vec')
     o = ck.ob('C20-D3.idxmap', w, 'idx_map[row, col] = position of the polygon in self.polygons', w.node)
     lp = [n for n in all_nodes(w) if isinstance(n, ast.For) and u(n.iter) == 'range(len(self.polygons))']
